@@ -72,6 +72,17 @@ theorem splitFiles_legacy_lt (p : Params) (bs files : List (List α))
     omega
   · exact absurd rfl hl
 
+theorem splitFiles_legacy_le (p : Params) (bs files : List (List α))
+    (h32 : p.maxRowsPerFile < 4294967296) (hdvd : p.group ∣ p.maxRowsPerFile)
+    (h : splitFiles .legacy p bs = some files) :
+    ∀ f ∈ files, f.length ≤ p.maxRowsPerFile := by
+  obtain ⟨hm, ⟨_, hg, rfl⟩ | ⟨hl, _⟩⟩ := splitFiles_some .legacy p bs files h
+  · have hl : p.lim32 = p.maxRowsPerFile := by unfold Params.lim32; exact Nat.mod_eq_of_lt h32
+    rw [hl]
+    exact fileLoop_le_of_full _ p.group hdvd _ none _ (chunksOf_fullButLast _ _)
+      (by simp [curRows]) (by simpa [curRows] using hm)
+  · exact absurd rfl hl
+
 theorem splitFiles_nil_iff (ver : Ver) (p : Params) (bs files : List (List α))
     (h : splitFiles ver p bs = some files) : files = [] ↔ bs.flatten = [] := by
   have h1 := splitFiles_flatten ver p bs files h
